@@ -17,11 +17,11 @@ META = {
 }
 
 
-def _combo(c, d, nf, n):
+def _combo(c, d, nf, n, vt):
     """values of the weighted terms of rule d at moment n for nf flavours (+ the extra term)."""
     vals = []
     for t in d["terms"]:
-        x = R.ad_entry(c["v"], t["sec"], c["k"], c["q"], nf, c["fl"], c["var"], n, t["a"], t["b"])
+        x = R.ad_entry(c["v"], t["sec"], c["k"], c["q"], nf, c["fl"], vt, n, t["a"], t["b"])
         w = 2.0 * nf if t["w"] == "2nf" else 1.0
         vals.append(w * x)
     if d["extra"] == "beta":
@@ -39,15 +39,16 @@ def measure_cell(cc, seed):
         res = abs(v[0] - 0.5 * (v[1] + v[2])) / den
         return {"e": expo100(res)}, {"res": res, "n": [n.real, n.imag], "spread": abs(v[1] - v[2]) / abs(v[0])}
     at = float(d["at"])
-    vals, lim = R.at_or_limit(lambda n: _combo(c, d, c["nf"], n), at)
+    vt = tuple(cc["vt"])  # the variation tuple the specification assigns to the index
+    vals, lim = R.at_or_limit(lambda n: _combo(c, d, c["nf"], n, vt), at)
     resid = max(abs(np.sum(x)) for x in vals)
     scale = 0.0
     for nf in cc["nfs"]:
         if d["sc"] == "terms":
-            sv, _ = R.at_or_limit(lambda n: _combo(c, d, nf, n), at)
+            sv, _ = R.at_or_limit(lambda n: _combo(c, d, nf, n, vt), at)
             scale = max(scale, max(float(np.sum(np.abs(x))) for x in sv))
         else:
-            sv, _ = R.at_or_limit(lambda n: _combo(c, d, nf, n), at + 1.0)
+            sv, _ = R.at_or_limit(lambda n: _combo(c, d, nf, n, vt), at + 1.0)
             scale = max(scale, max(float(np.sum(np.abs(x))) for x in sv))
     # a combination of structural zeros vanishes identically
     res = 0.0 if resid == 0.0 else (resid / scale if scale > 0 else float("inf"))
